@@ -420,6 +420,9 @@ type CallSpec struct {
 	Args     [3][]byte
 	// MaxFrame bounds the total size of each emitted frame (default 65535).
 	MaxFrame int
+	// ReservedFlags is OR'ed into the flags byte of every frame of the message: bits
+	// other than 0x01 are reserved and must be ignored by a decoder.
+	ReservedFlags byte
 }
 
 // EncCall encodes a complete call message into one or more frames following
@@ -504,6 +507,7 @@ func EncCall(c CallSpec) [][]byte {
 		if !done {
 			w.b[flagPos] = FlagFragment
 		}
+		w.b[flagPos] |= c.ReservedFlags &^ FlagFragment
 		if csumSize(c.CsumType) == 4 {
 			binary.BigEndian.PutUint32(w.b[csPos:], csum)
 		}
